@@ -121,6 +121,29 @@ fn run_script_t(lines: &[String], watchdog: Duration) -> Result<Vec<String>, Fai
     Ok(out)
 }
 
+/// Oracle 1: the script in `runs` separate processes (run concurrently), normalised output identical.
+fn compare_runs(lines: &[String], runs: usize, watchdog: Duration, stats: &mut Stats) -> Result<Vec<String>, Failure> {
+    let outs: Vec<Result<Vec<String>, Failure>> = std::thread::scope(|sc| {
+        let hs: Vec<_> = (0..runs.max(1)).map(|_| sc.spawn(|| run_script_t(lines, watchdog))).collect();
+        hs.into_iter().map(|h| h.join().unwrap_or_else(|_| Err(Failure::new("harness-panic", json!({}))))).collect()
+    });
+    let mut it = outs.into_iter();
+    let first = it.next().unwrap()?;
+    stats.eval();
+    for (r, o) in it.enumerate() {
+        let other = o?;
+        stats.eval();
+        if other != first {
+            let idx = first.iter().zip(other.iter()).position(|(a, b)| a != b).unwrap_or(first.len().min(other.len()));
+            return Err(Failure::new(
+                "output-differs-between-process-runs",
+                json!({"script": lines, "run": r + 1, "first_difference_at_line": idx, "run0": first.get(idx), "other": other.get(idx), "run0_output": first, "other_output": other}),
+            ));
+        }
+    }
+    Ok(first)
+}
+
 fn part_runs(bytes: &[u8], stats: &mut Stats) -> Verdict {
     let mut s = Src::new(bytes);
     let n = 1 + s.below(6);
@@ -133,19 +156,7 @@ fn part_runs(bytes: &[u8], stats: &mut Stats) -> Verdict {
         lines.extend(r.lines.iter().cloned());
     }
     let runs = RUNS.with(|c| c.get());
-    let first = run_script(&lines)?;
-    stats.eval();
-    for r in 1..runs {
-        let other = run_script(&lines)?;
-        stats.eval();
-        if other != first {
-            let idx = first.iter().zip(other.iter()).position(|(a, b)| a != b).unwrap_or(first.len().min(other.len()));
-            return Err(Failure::new(
-                "output-differs-between-process-runs",
-                json!({"script": lines, "run": r, "first_difference_at_line": idx, "run0": first.get(idx), "other": other.get(idx), "run0_output": first, "other_output": other}),
-            ));
-        }
-    }
+    let first = compare_runs(&lines, runs, Duration::from_secs(60), stats)?;
     let carried = rounds.iter().skip(1).any(|r| r.same_game_as_previous);
     if rounds.len() >= 2 {
         stats.class("scripts_with_two_or_more_searches");
@@ -172,6 +183,52 @@ fn shuffle_game(s: &mut Src) -> String {
     let partial = s.below(4);
     mv.extend([a.0, b.0, a.1].iter().take(partial));
     format!("position startpos moves {}", mv.join(" "))
+}
+
+/// Oracle 2: prefix, ucinewgame, suffix in one process; suffix alone in a fresh one.
+fn compare_newgame(prefix: &[String], suffix: &[String], stats: &mut Stats) -> Verdict {
+    let (prefix, suffix) = (prefix.to_vec(), suffix.to_vec());
+    // process 1: prefix, barrier, ucinewgame, suffix
+    let mut p = Proc::spawn().map_err(|e| Failure::new("harness-no-engine", json!({"error": e})))?;
+    for l in &prefix {
+        p.send(l);
+    }
+    p.send("isready");
+    let n_ready = prefix.iter().filter(|l| l.trim() == "isready").count() + 1;
+    for _ in 0..n_ready {
+        if p.read_until("readyok", Duration::from_secs(60)).is_err() {
+            return Err(Failure::new("harness-timeout-or-exit", json!({"script": prefix, "stdout": p.transcript})));
+        }
+    }
+    p.send("ucinewgame");
+    for l in &suffix {
+        p.send(l);
+    }
+    p.send("isready");
+    let n_ready2 = suffix.iter().filter(|l| l.trim() == "isready").count() + 1;
+    let mut after: Vec<String> = Vec::new();
+    for _ in 0..n_ready2 {
+        match p.read_until("readyok", Duration::from_secs(60)) {
+            Ok(ls) => {
+                after.extend(ls.iter().map(|l| normalise(l)));
+                after.push("readyok".into());
+            }
+            Err(_) => return Err(Failure::new("harness-timeout-or-exit", json!({"prefix": prefix, "suffix": suffix, "stdout": p.transcript}))),
+        }
+    }
+    p.send("quit");
+    stats.eval();
+    // process 2: suffix alone
+    let fresh = run_script(&suffix)?;
+    stats.eval();
+    if fresh != after {
+        let idx = fresh.iter().zip(after.iter()).position(|(a, b)| a != b).unwrap_or(fresh.len().min(after.len()));
+        return Err(Failure::new(
+            "ucinewgame-not-like-fresh-process",
+            json!({"prefix": prefix, "suffix": suffix, "first_difference_at_line": idx, "after_ucinewgame": after.get(idx), "fresh_process": fresh.get(idx), "after_ucinewgame_output": after, "fresh_output": fresh}),
+        ));
+    }
+    Ok(())
 }
 
 fn part_newgame(bytes: &[u8], stats: &mut Stats) -> Verdict {
@@ -218,46 +275,7 @@ fn part_newgame(bytes: &[u8], stats: &mut Stats) -> Verdict {
     if bare_go {
         suffix.insert(0, format!("go depth {}", 1 + s.below(if mode == 2 { 4 } else { 3 })));
     }
-    // process 1: prefix, barrier, ucinewgame, suffix
-    let mut p = Proc::spawn().map_err(|e| Failure::new("harness-no-engine", json!({"error": e})))?;
-    for l in &prefix {
-        p.send(l);
-    }
-    p.send("isready");
-    let n_ready = prefix.iter().filter(|l| l.trim() == "isready").count() + 1;
-    for _ in 0..n_ready {
-        if p.read_until("readyok", Duration::from_secs(60)).is_err() {
-            return Err(Failure::new("harness-timeout-or-exit", json!({"script": prefix, "stdout": p.transcript})));
-        }
-    }
-    p.send("ucinewgame");
-    for l in &suffix {
-        p.send(l);
-    }
-    p.send("isready");
-    let n_ready2 = suffix.iter().filter(|l| l.trim() == "isready").count() + 1;
-    let mut after: Vec<String> = Vec::new();
-    for _ in 0..n_ready2 {
-        match p.read_until("readyok", Duration::from_secs(60)) {
-            Ok(ls) => {
-                after.extend(ls.iter().map(|l| normalise(l)));
-                after.push("readyok".into());
-            }
-            Err(_) => return Err(Failure::new("harness-timeout-or-exit", json!({"prefix": prefix, "suffix": suffix, "stdout": p.transcript}))),
-        }
-    }
-    p.send("quit");
-    stats.eval();
-    // process 2: suffix alone
-    let fresh = run_script(&suffix)?;
-    stats.eval();
-    if fresh != after {
-        let idx = fresh.iter().zip(after.iter()).position(|(a, b)| a != b).unwrap_or(fresh.len().min(after.len()));
-        return Err(Failure::new(
-            "ucinewgame-not-like-fresh-process",
-            json!({"prefix": prefix, "suffix": suffix, "first_difference_at_line": idx, "after_ucinewgame": after.get(idx), "fresh_process": fresh.get(idx), "after_ucinewgame_output": after, "fresh_output": fresh}),
-        ));
-    }
+    compare_newgame(&prefix, &suffix, stats)?;
     let prefix_searches = prefix.iter().filter(|l| l.starts_with("go")).count();
     if prefix_searches >= 1 {
         stats.class("prefix_contains_a_search");
@@ -272,7 +290,7 @@ fn part_newgame(bytes: &[u8], stats: &mut Stats) -> Verdict {
     if bare_go {
         stats.class("go_right_after_ucinewgame_without_position");
     }
-    stats.sample(|| json!({"oracle": "fresh-equivalence", "prefix": prefix, "suffix": suffix, "output_lines": fresh.len()}));
+    stats.sample(|| json!({"oracle": "fresh-equivalence", "prefix": prefix, "suffix": suffix}));
     Ok(())
 }
 
@@ -326,24 +344,7 @@ fn part_heavy(bytes: &[u8], stats: &mut Stats) -> Verdict {
         }
     }
     let runs = RUNS.with(|c| c.get()).max(2);
-    let outs: Vec<Result<Vec<String>, Failure>> = std::thread::scope(|sc| {
-        let hs: Vec<_> = (0..runs).map(|_| sc.spawn(|| run_script_t(&lines, Duration::from_secs(900)))).collect();
-        hs.into_iter().map(|h| h.join().unwrap_or_else(|_| Err(Failure::new("harness-panic", json!({}))))).collect()
-    });
-    let mut it = outs.into_iter();
-    let first = it.next().unwrap()?;
-    stats.eval();
-    for (r, o) in it.enumerate() {
-        let other = o?;
-        stats.eval();
-        if other != first {
-            let idx = first.iter().zip(other.iter()).position(|(a, b)| a != b).unwrap_or(first.len().min(other.len()));
-            return Err(Failure::new(
-                "output-differs-between-process-runs",
-                json!({"script": lines, "run": r + 1, "first_difference_at_line": idx, "run0": first.get(idx), "other": other.get(idx), "run0_output": first, "other_output": other}),
-            ));
-        }
-    }
+    let first = compare_runs(&lines, runs, Duration::from_secs(900), stats)?;
     let nodes: u64 = first
         .iter()
         .filter(|l| l.starts_with("info "))
@@ -465,8 +466,16 @@ pub fn run(tier: Tier, seed: u64, known: &Known) -> PropRun {
     run
 }
 
-pub fn replay(part: &str, bytes: &[u8], _case: &Value, stats: &mut Stats) -> Verdict {
+pub fn replay(part: &str, bytes: &[u8], case: &Value, stats: &mut Stats) -> Verdict {
     RUNS.with(|c| c.set(4));
+    // structural replay: the saved script(s)
+    let strs = |k: &str| -> Option<Vec<String>> { case.get(k)?.as_array().map(|a| a.iter().filter_map(|x| x.as_str().map(|s| s.to_string())).collect()) };
+    if let (Some(prefix), Some(suffix)) = (strs("prefix"), strs("suffix")) {
+        return compare_newgame(&prefix, &suffix, stats);
+    }
+    if let Some(script) = strs("script") {
+        return compare_runs(&script, 4, Duration::from_secs(900), stats).map(|_| ());
+    }
     match part {
         "newgame" => part_newgame(bytes, stats),
         "inprocess" => part_inprocess(bytes, stats),
